@@ -67,6 +67,8 @@ def lower_expr(n) -> Any:
         return ("unknown", "null")
     k = n["kind"]
     ks = kids(n)
+    if k in ("CXXStaticCastExpr", "CXXFunctionalCastExpr", "CStyleCastExpr") and ks and n.get("type", {}).get("qualType", "") in ("float", "const float", "_Float16", "__fp16"):
+        return ("call", "narrow_float", [lower_expr(ks[0])])       # an explicit narrowing of a double: not value preserving
     if k in TRANSPARENT and ks:
         return lower_expr(ks[0])
     if k == "SubstNonTypeTemplateParmExpr":
@@ -213,6 +215,10 @@ def lower_stmt(n) -> List[Any]:
         return [("rangefor", var, rng, _flat(body))]
     if k == "NullStmt":
         return []
+    if k == "ContinueStmt":
+        return [("continue",)]
+    if k == "BreakStmt":
+        return [("break",)]
     # expression statement
     e = lower_expr(n)
     if e[0] == "bin" and e[1] == "=":
